@@ -114,7 +114,9 @@ def build_hank(
             return Hank, None
 
     elif method == "cov_R":
-        # Correlations
+        # Correlations (in floating point: products of integer-typed samples would wrap)
+        Y = np.asarray(Y, dtype=float)
+        Yref = np.asarray(Yref, dtype=float)
         Ri = np.array(
             [
                 1 / (Ndat - k) * np.dot(Y[:, : Ndat - k], Yref[:, k:].T)
